@@ -334,11 +334,13 @@ def _forked(fn, arg, timeout: float):
                 break
             chunks.append(b)
     os.close(r)
-    os.waitpid(pid, 0)
+    _, status = os.waitpid(pid, 0)
     try:
         return json.loads(b"".join(chunks).decode())
     except ValueError:
-        return {"infra": "child died without a result"}
+        if os.WIFSIGNALED(status):
+            return {"crashed": f"process killed by signal {os.WTERMSIG(status)}"}
+        return {"infra": f"child died without a result (status {status})"}
 
 
 def _warm() -> None:
@@ -409,6 +411,9 @@ def _stress_worker(shard):
         if "timeout" in r:
             # a deadlock of the code under test shows up here as a timeout: exit 2 by the rules (timeouts are never exit 1)
             raise common.Infra(f"free-running stress round (seed {a[2]}) did not finish within 150 s")
+        if "crashed" in r:
+            out.append({"errs": [r["crashed"]], "hung": 0, "total": -1, "distinct": -1, "expect": a[0] * a[1], "seed": a[2]})
+            continue
         if "ok" not in r:
             raise common.Infra(f"stress round: {r}")
         out.append(r["ok"])
@@ -465,10 +470,10 @@ def _jobs(chk) -> list[dict]:
             for p in pats:
                 if tuple(p) not in seen:
                     seen.add(tuple(p)); uniq.append(p)
-            if quick and len(uniq) > 45:
-                uniq = rnd.sample(uniq, 45)
+            if quick and len(uniq) > 110:
+                uniq = rnd.sample(uniq, 110)
         else:
-            uniq = list(_patterns3(rnd, n, 30 if quick else 300))
+            uniq = list(_patterns3(rnd, n, 60 if quick else 400))
         for p in uniq:
             jobs.append({"name": name, "init": init, "progs": progs, "tables": tables, "sched": p})
     return jobs
